@@ -121,8 +121,8 @@ CHECKS = {
         category='other',
         text='Time: node-transfer tables of the real BaseTransfer (families x types x counts<=4(6)): polynomial exactness, R P = I, decided over all data by the solver. Space: the real mesh_to_mesh.restrict/prolong are executed on symbolic meshes '
              '(mesh and imex_mesh, 1-D/2-D(/3-D), periodic and Dirichlet, orders 2-8, nested shortcut on/off); every interpolated value must equal the Lagrange polynomial through the p nearest coarse points with weights recomputed in exact rationals in the query; '
-             'restriction = scaled transpose; type/shape preserved.',
-        note='Trusted: z3; exact dense product stands in for scipy.sparse .dot after the real code built the matrices; tolerance 1e-11/1e-12. Outside: FFT transfers, grids > 17(33). Known finding: periodic grids exactly as wide as the stencil.',
+             'restriction = scaled transpose; type/shape preserved. restriction_matrix_1d against the nearest-points Lagrange rule. FFT transfers (1-D, 2-D): matrices read off the real classes by unit vectors; band-limited data reproduced and injection after prolongation is the identity on it (solver, all coefficients); imex_mesh goes through per component.',
+        note='Trusted: z3; exact dense product stands in for scipy.sparse .dot after the real code built the matrices; tolerance 1e-11/1e-12. Outside: the Nyquist mode in FFT transfers, refinement ratios other than 2, particle transfers, grids > 17(33). Known finding: periodic grids exactly as wide as the stencil.',
         design='4/C11', technique='symbolic execution of the real transfer classes on z3-valued meshes + SMT (QF_LRA) against an in-query rational Lagrange oracle',
     ),
     'C15': dict(
